@@ -88,8 +88,8 @@ func (fr *Frame) callFunc(st *State, fn *ssa.Function, args []Val, bindings []Va
 	if fn.Origin() != nil {
 		name = fn.Origin().String()
 	}
-	// 1. no-op functions (logging, tracing, metrics)
-	if r.eng.isNoop(name) {
+	// 1. no-op functions (logging, tracing, metrics); an explicit contract wins over the prefix-based no-op list
+	if r.eng.isNoop(name) && r.eng.contractFor(fn) == nil {
 		r.noops[name] = true
 		return fr.unconstrainedResults(st, fn.Signature)
 	}
